@@ -471,6 +471,9 @@ def bracket_programs(rng, n):
         def call():
             f = r.choice(["ev", "neg1", "idf"])
             a = r.choice([lambda: Int(r.choice([0, 3, 4, 7])), lambda: Id("k"), lambda: Str("s"), lambda: Bool(True)])()
+            if r.random() < 0.3:
+                # a method of a named map: `mo.add k` -- as an element it may be written as a chain broken over two lines
+                return MCall(Id("mo"), r.choice(["add", "sub"]), [r.choice([lambda: Int(r.choice([1, 5])), lambda: Id("k")])()])
             c = App(Id(f), [a])
             return Not(c) if r.random() < 0.4 else c
         def elems():
@@ -478,7 +481,9 @@ def bracket_programs(rng, n):
         xs = [Asg("ev", Fn([Param("n")], Block([Cmp(["=="], [Bin("%", Core("size", [Tuple([Id("n"), Id("n")])]), Int(2)), Int(0)])]))),
               Asg("neg1", Fn([Param("n")], Block([Tuple([Str("neg"), Id("n")])]))), Asg("idf", Fn([Param("n")], Block([Id("n")]))),
               Asg("pair", Fn([Param("x"), Param("y", "def")], Block([Tuple([Id("x"), Id("y")])]), defaults=[Str("missing")])),
-              Asg("k", Int(r.choice([1, 2])))]
+              Asg("k", Int(r.choice([1, 2]))),
+              Asg("mo", Map(["add", "sub"], [Fn([Param("p"), Param("q", "def")], Block([Bin("+", Id("p"), Id("q"))]), defaults=[Int(10)]),
+                                              Fn([Param("p"), Param("q", "def")], Block([Bin("-", Id("p"), Id("q"))]), defaults=[Int(100)])]))]
         xs.append(Asg("a", List(elems())))
         xs.append(Asg("b", Tuple(elems())))
         xs.append(Asg("c", App(Id("pair"), [call(), call()])))
